@@ -46,7 +46,6 @@ Section Full.
   Variable req : rpath -> Z -> option Z.
   Variable T : node.
   Hypothesis ind_ws : ws_indent ind = true.
-  Hypothesis ind_nolf : no_lf ind = true.
   Hypothesis width_pos : (1 <= width)%Z.
   (* the oracle never lets an element, comment or PI fit into no space *)
   Hypothesis req_nofit0 : forall rp u x, get T rp = Some x -> is_text x = false -> (u <= 0)%Z -> req rp u = None.
@@ -278,7 +277,7 @@ Section Full.
                 tstep_post ind width L st (snd (w_text ind width req L st (i :: pp) pn s (hd_error r) aft'))
                            (fst (w_text ind width req L st (i :: pp) pn s (hd_error r) aft')) p pn (hd_error r) lead trail k).
       { intros Hpl H0.
-        apply (w_text_step_from ind width req ind_ws ind_nolf width_pos L st p pn (hd_error r) lead trail k Hk Hi Hpl (i :: pp) aft'
+        apply (w_text_step_from ind width req ind_ws width_pos L st p pn (hd_error r) lead trail k Hk Hi Hpl (i :: pp) aft'
                  (nf_afterX_hd r Hnr)).
         intros Hoff. destruct Hcl as [Ha|Hcl].
         - apply (over_h Ha); try assumption. exact (nf_afterX_hd r Hnr).
@@ -430,82 +429,77 @@ Qed.
 (* (1) proved outright: trees in which a text with content only stands first among its siblings (all other texts are
        single spaces; anything under xml:space="preserve") - for every oracle that lets nothing but text fit into no
        space, in particular the real one; root or sub-tree of any document T *)
-Theorem wrap_first_text_transparent ind align width req T : ws_indent ind = true -> no_lf ind = true -> (1 <= width)%Z ->
+Theorem wrap_first_text_transparent ind align width req T : ws_indent ind = true -> (1 <= width)%Z ->
   (forall rp u x, get T rp = Some x -> is_text x = false -> (u <= 0)%Z -> req rp u = None) ->
   forall t sr, get T sr = Some t -> reduced t -> is_text t = false -> first_text t = true ->
   reduce_model (seen (wrap_chunk ind align width req sr (after_path T sr) t)) = t.
 Proof.
-  intros Hi Hn Hw Hreq t sr Hg Hr Ht Hc. unfold wrap_chunk.
-  apply (wrap_full_transparent ind align width req T Hi Hn Hw Hreq false ltac:(discriminate)); try assumption. cbn. lia.
+  intros Hi Hw Hreq t sr Hg Hr Ht Hc. unfold wrap_chunk.
+  apply (wrap_full_transparent ind align width req T Hi Hw Hreq false ltac:(discriminate)); try assumption. cbn. lia.
 Qed.
 
-Theorem wrap_real_first_text_transparent ind align width T sr t : ws_indent ind = true -> no_lf ind = true -> (1 <= width)%Z ->
+Theorem wrap_real_first_text_transparent ind align width T sr t : ws_indent ind = true -> (1 <= width)%Z ->
   get T sr = Some t -> reduced t -> is_text t = false -> first_text t = true ->
   reduce_model (wrap_seen ind align width T sr) = t.
 Proof.
-  intros Hi Hn Hw Hg Hr Ht Hc. unfold wrap_seen, wrap_real. rewrite Hg.
-  apply (wrap_first_text_transparent ind align width (real_req T sr) T Hi Hn Hw); try assumption.
+  intros Hi Hw Hg Hr Ht Hc. unfold wrap_seen, wrap_real. rewrite Hg.
+  apply (wrap_first_text_transparent ind align width (real_req T sr) T Hi Hw); try assumption.
   intros rp u x. apply real_req_nofit0.
 Qed.
 
 (* (2) all trees, given the partial-line branch of _serialize_text_over_lines (the Prop over_spec) *)
-Theorem wrap_all_transparent_if_over ind align width req T : ws_indent ind = true -> no_lf ind = true -> (1 <= width)%Z ->
+Theorem wrap_all_transparent_if_over ind align width req T : ws_indent ind = true -> (1 <= width)%Z ->
   (forall rp u x, get T rp = Some x -> is_text x = false -> (u <= 0)%Z -> req rp u = None) ->
   over_spec ind width req ->
   forall t sr, get T sr = Some t -> reduced t -> is_text t = false ->
   reduce_model (seen (wrap_chunk ind align width req sr (after_path T sr) t)) = t.
 Proof.
-  intros Hi Hn Hw Hreq Hov t sr Hg Hr Ht. unfold wrap_chunk.
-  apply (wrap_full_transparent ind align width req T Hi Hn Hw Hreq true (fun _ => Hov)); try assumption; [|cbn; lia].
+  intros Hi Hw Hreq Hov t sr Hg Hr Ht. unfold wrap_chunk.
+  apply (wrap_full_transparent ind align width req T Hi Hw Hreq true (fun _ => Hov)); try assumption; [|cbn; lia].
   clear. induction t as [ns name attrs kids IH| | |] using node_ind'; try reflexivity.
   cbn [cls orb andb]. destruct (directive attrs false); [reflexivity|]. cbn [orb]. apply forallb_forall. rewrite Forall_forall in IH. exact IH.
 Qed.
 
 (* (3) the partial-line branch holds (Ws/WrapTextStep.v), so: all trees *)
-Theorem over_spec_holds ind width req : ws_indent ind = true -> no_lf ind = true -> (1 <= width)%Z -> over_spec ind width req.
+Theorem over_spec_holds ind width req : ws_indent ind = true -> (1 <= width)%Z -> over_spec ind width req.
 Proof.
-  intros Hi Hn Hw. unfold over_spec. intros L st p prev next lead trail k rp Hk Hinv Hp _ H0.
-  exact (tol_nz ind width req Hi Hn Hw L st p prev next lead trail k Hk Hinv Hp rp H0).
+  intros Hi Hw. unfold over_spec. intros L st p prev next lead trail k rp Hk Hinv Hp _ H0.
+  exact (tol_nz ind width req Hi Hw L st p prev next lead trail k Hk Hinv Hp rp H0).
 Qed.
 
-Theorem wrap_all_transparent ind align width req T : ws_indent ind = true -> no_lf ind = true -> (1 <= width)%Z ->
+Theorem wrap_all_transparent ind align width req T : ws_indent ind = true -> (1 <= width)%Z ->
   (forall rp u x, get T rp = Some x -> is_text x = false -> (u <= 0)%Z -> req rp u = None) ->
   forall t sr, get T sr = Some t -> reduced t -> is_text t = false ->
   reduce_model (seen (wrap_chunk ind align width req sr (after_path T sr) t)) = t.
 Proof.
-  intros Hi Hn Hw Hreq. apply wrap_all_transparent_if_over; try assumption. apply over_spec_holds; assumption.
+  intros Hi Hw Hreq. apply wrap_all_transparent_if_over; try assumption. apply over_spec_holds; assumption.
 Qed.
 
 (* NodeBase.serialize(format_options=FormatOptions(align, ind, width)) of the element at sr of the document T, with the
    real fitting heuristics *)
-Theorem wrap_real_transparent ind align width T sr t : ws_indent ind = true -> no_lf ind = true -> (1 <= width)%Z ->
+Theorem wrap_real_transparent ind align width T sr t : ws_indent ind = true -> (1 <= width)%Z ->
   get T sr = Some t -> reduced t -> is_text t = false ->
   reduce_model (wrap_seen ind align width T sr) = t.
 Proof.
-  intros Hi Hn Hw Hg Hr Ht. unfold wrap_seen, wrap_real. rewrite Hg.
-  apply (wrap_all_transparent ind align width (real_req T sr) T Hi Hn Hw); try assumption.
+  intros Hi Hw Hg Hr Ht. unfold wrap_seen, wrap_real. rewrite Hg.
+  apply (wrap_all_transparent ind align width (real_req T sr) T Hi Hw); try assumption.
   intros rp u x. apply real_req_nofit0.
 Qed.
 
-(* ---- indentation strings that contain a newline (finding C03-newline-in-indentation, open) -------------------
-   The guard `no_lf ind` above cannot be dropped.  _LengthTrackingWriter.offset counts the characters since the last
-   newline written; TextWrappingSerializer._line_offset subtracts level * len(indentation) from it, which is the width
-   of the indentation on the current line only if the indentation contains no newline.  Otherwise just the part of
-   level * indentation behind its last newline is on the line: _line_offset is too small (0 or negative), the
-   serializer takes a partly filled line for an empty one (indentation "\n": offset 1 - 1 * 1 = 0) or
-   _available_space for positive when the line is full (" \n", "\n "), and after a line break has consumed the
-   trailing space of a text the following node is glued to the text.  The model reproduces the real output. *)
+(* ---- indentation strings that contain a newline (finding C03-newline-in-indentation, fixed by e1f59b7) ---------
+   _LengthTrackingWriter.offset counts the characters since the last newline written; before e1f59b7
+   TextWrappingSerializer._line_offset subtracted level * len(indentation) from it, which is the width of the
+   indentation on the current line only if the indentation contains no newline: <r>a b <i/></r> with indentation
+   "\n" at width 1 was written <r>(LF)a(LF)b<i/>(LF)</r>, losing the space before <i/>.  Now only the part of the
+   indentation behind its last newline is subtracted (Wrap.ilen / tail_line); the former witnesses as regression: *)
 Definition c03_lf_witness : node := Tag [] [114%N] [] [Text [97; 32; 98; 32]%N; Tag [] [105%N] [] []].
 
-Lemma c03_lf_indentation_refuted :
+Lemma c03_lf_indentation_regression :
   reduce_model c03_lf_witness = c03_lf_witness /\ is_text c03_lf_witness = false /\
   ws_indent [LF] = true /\ no_lf [LF] = false /\
-  (* <r>(LF)a(LF)b<i/>(LF)</r> *)
-  wrap_str [LF] false 1%Z c03_lf_witness [] = [60; 114; 62; 10; 97; 10; 98; 60; 105; 47; 62; 10; 60; 47; 114; 62]%N /\
-  reduce_model (wrap_seen [LF] false 1%Z c03_lf_witness []) <> c03_lf_witness /\
-  reduce_model (wrap_seen [SP; LF] false 1%Z c03_lf_witness []) <> c03_lf_witness /\
-  reduce_model (wrap_seen [LF; SP] false 1%Z c03_lf_witness []) <> c03_lf_witness /\
-  (* without the newline in the indentation: *)
-  reduce_model (wrap_seen [] false 1%Z c03_lf_witness []) = c03_lf_witness /\
-  reduce_model (wrap_seen [SP] false 1%Z c03_lf_witness []) = c03_lf_witness.
-Proof. vm_compute. repeat split; try reflexivity; discriminate. Qed.
+  (* <r>(LF)a(LF)b(LF)<i/>(LF)</r> *)
+  wrap_str [LF] false 1%Z c03_lf_witness [] = [60; 114; 62; 10; 97; 10; 98; 10; 60; 105; 47; 62; 10; 60; 47; 114; 62]%N /\
+  reduce_model (wrap_seen [LF] false 1%Z c03_lf_witness []) = c03_lf_witness /\
+  reduce_model (wrap_seen [SP; LF] false 1%Z c03_lf_witness []) = c03_lf_witness /\
+  reduce_model (wrap_seen [LF; SP] false 1%Z c03_lf_witness []) = c03_lf_witness.
+Proof. vm_compute. repeat split; reflexivity. Qed.
